@@ -7,7 +7,7 @@ import { execFileSync } from "node:child_process";
 
 export const REPO = process.env.VERIF_REPO || "/repo";
 export const VERIF = process.env.VERIF_HOME || "/verif";
-export const BIN = path.join(VERIF, "build/target/release");
+export const BIN = process.env.VERIF_BIN || path.join(VERIF, "build/target/release"); // VERIF_BIN: maintenance only (coverage-instrumented engines)
 const CLIENT_SRC = path.join(REPO, "packages/beff-client/src");
 
 let factories = null; // name -> Function(__require, __exports)
